@@ -120,7 +120,8 @@ def store_case(rng, tmp):
     answers = gen_answers(rng, present)
     specs = {f'{i}/{s}.{k}': FakeInput(s, k) for i, (s, k, v) in enumerate(answers)}
     toks = ' '.join(triple(*a) for a in answers)
-    lines = [f'session {hx(text)} {toks}'.strip(), f'rerun {hx(text)} {toks}'.strip()]
+    lines = [f'session {hx(text)} {toks}'.strip(), f'rerun {hx(text)} {toks}'.strip(),
+             f'clean {hx(text)} {toks}'.strip()]
     keys = []
     try:
         store = hinputs.InputStore(path, specs)
@@ -129,7 +130,7 @@ def store_case(rng, tmp):
         keys.append('store:read-' + name)
         # nothing is written: the file is untouched
         assert read_raw(path) == text
-        return lines, ['err ' + name, 'err ' + name], keys
+        return lines, ['err ' + name, 'err ' + name, 'err ' + name], keys
     stopped = None
     try:
         for i, (s, k, v) in enumerate(answers):
@@ -147,7 +148,7 @@ def store_case(rng, tmp):
     except Exception as e:  # noqa
         exp_rerun = 'err ' + I.err_name(e)
         keys.append('store:reread-' + I.err_name(e))
-    return lines, [exp_session, exp_rerun], keys
+    return lines, [exp_session, exp_rerun, '*store:written-config-IniClean'], keys
 
 
 # ------------------------------------------------------------------ (b) the real solve
@@ -291,8 +292,9 @@ def solve_scenario(seed, idx, tmp, budget):
     def check(kind, answers_before, err):
         disk = read_raw(path)
         toks = ' '.join(triple(*a) for a in answers_before)
-        lines = [f'session {hx(init_text)} {toks}'.strip(), f'rerun {hx(init_text)} {toks}'.strip()]
-        expect = ['ok ' + hx(disk)]
+        lines = [f'session {hx(init_text)} {toks}'.strip(), f'clean {hx(init_text)} {toks}'.strip(),
+                 f'rerun {hx(init_text)} {toks}'.strip()]
+        expect = ['ok ' + hx(disk), '*solve:written-config-IniClean']
         violations = []
         try:
             cp = I.fresh()
@@ -522,6 +524,12 @@ def run(seed, n, run_step, prefix=''):
     if len(model) != len(lines):
         disagreements.append({'op': '<stream>', 'model': f'{len(model)} answer lines', 'real': f'{len(lines)} ops'})
     for l, m, r in zip(lines, model, expect):
+        if r.startswith('*'):
+            # record-only: the model's own classification (is the written configuration IniClean?)
+            bump(f'{r[1:]}={m}')
+            if m not in ('T', 'F'):
+                disagreements.append({'op': l[:2000], 'model': m[:2000], 'real': 'T or F expected'})
+            continue
         if m != r:
             disagreements.append({'op': l[:2000], 'model': m[:2000], 'real': r[:2000]})
     samples = [{'op': lines[k][:300], 'real': expect[k][:300]} for k in range(0, len(lines), max(1, len(lines) // 12))]
